@@ -771,8 +771,8 @@ func TestVF_C11(t *testing.T) {
 		"oracle = Prometheus index.NewFileReader (LabelNames, SortedLabelValues, Symbols, PostingsRanges): names, values of every name, every symbol, PostingsOffset of every present value and of absent values, " +
 		"and PostingsOffsets of generated sorted lists (present/absent-before/between/after, duplicates, runs over several sampled groups) must agree, missing values = {-1,-1}/NotFoundRangeErr; " +
 		"exact ranges except the End of the last offset-table entry (>= true end, <= index size); distinct/non-trivial = (index, rate, name, list) with >=2 values of which >=1 present")
-	nIdx := r.N(60, 200)
-	nLists := r.N(200, 100)
+	nIdx := r.N(60, 300)
+	nLists := r.N(200, 120)
 	rates := []int{1, 2, 3, 5, 32, 64}
 	if r.Thorough() {
 		rates = rates[:0]
